@@ -211,6 +211,12 @@ def w_gtsucc : RangeAst :=
 theorem npm_gt_succ_pre_refuted : ¬ C03_npm := fun h =>
   not_agree (by decide +kernel) (h w_gtsucc ⟨1, 1, 1, [.num 0]⟩ (by decide)).1
 
+/-- F-C03-signed-ident: `>=1.0.0-0` does not match `1.0.0--5` (the library reads the
+identifier `-5` as the number -5, below `0`); in SemVer it is alphanumeric, above every number. -/
+def w_signed : RangeAst := [.comps [⟨.ge, ⟨[.n 1, .n 0, .n 0], [.num 0]⟩⟩]]
+theorem npm_signed_ident_refuted : ¬ C03_npm := fun h =>
+  not_agree (by decide +kernel) (h w_signed ⟨1, 0, 0, [.alnum "-5"]⟩ (by decide)).1
+
 /-- F-C03-hyphen-wild: `3.0.2-0 - x` is rejected; node accepts it and it contains `3.0.2`. -/
 def w_hyphenwild : RangeAst := [.hyphen ⟨[.n 3, .n 0, .n 2], [.num 0]⟩ ⟨[.x], []⟩]
 theorem npm_hyphen_wild_refuted : ¬ C03_npm := fun h => by
@@ -259,6 +265,7 @@ theorem maven_neg_refuted : ¬ C03_maven := fun h =>
 example : NpmRange.classes w_lt0pre ⟨0, 0, 0, [.alnum "a"]⟩ = ["F-C03-lt0pre"] ∧
     NpmRange.classes w_pre000 ⟨0, 0, 0, [.num 0]⟩ = ["F-C03-pre000"] ∧
     NpmRange.classes w_gtsucc ⟨1, 1, 1, [.num 0]⟩ = ["F-C03-gt-succ-pre"] ∧
+    NpmRange.classes w_signed ⟨1, 0, 0, [.alnum "-5"]⟩ = ["F-C03-signed-ident"] ∧
     NpmRange.classes w_hyphenwild ⟨3, 0, 2, []⟩ = ["F-C03-hyphen-wild"] ∧
     NpmRange.classes w_hypheninv ⟨0, 3, 0, []⟩ = ["F-C03-hyphen-inverted"] ∧
     NpmRange.classes w_midwild ⟨1, 0, 0, []⟩ = ["F-C03-lt-midwild"] ∧
@@ -267,7 +274,7 @@ example : NpmRange.classes w_lt0pre ⟨0, 0, 0, [.alnum "a"]⟩ = ["F-C03-lt0pre
     CargoReq.classes w_cargopre ⟨3, 1, 2, [.alnum "a"]⟩ = ["F-C03-cargo-pre-partial"] ∧
     Pep440Spec.classes w_nepre0 = ["F-C03-ne-pre0"] ∧
     MavenRange.classes w_mvnneg { nums := [0], qual := .rc, qn := 1 } = ["F-C03-mvn-neg"] := by
-  decide
+  decide +kernel
 
 /-! ## Layer L1: operator desugaring (proved, all inputs) -/
 
@@ -401,25 +408,29 @@ theorem pypi_L1_eq_star (rel : List Nat) (hr : RShape rel) (h2 : rel.length ≤ 
 example : opVersionToSpan tokBacon (embedPepRel [1]) = .err ∧ Pep440Spec.valid [⟨.compat, { rel := [1] }, false⟩] = false := by
   constructor <;> decide +kernel
 
-/-- The hypotheses of the L1 theorems lie outside every npm finding class. -/
-theorem npm_classes_nil (c : Comparator) (hc : L1Dom c) (x : SemVerAst) (hx : x.pre = []) :
+/-- The hypotheses of the L1 theorems lie outside every npm finding class (the operand's
+prerelease identifiers, which L1 does not read, aside). -/
+theorem npm_classes_nil (c : Comparator) (hc : L1Dom c) (x : SemVerAst) (hx : x.pre = [])
+    (hsig : c.p.pre.any NpmRange.identSigned = false) :
     NpmRange.classes [.comps [c]] x = [] := by
   obtain ⟨op, nums, pre⟩ := c
   obtain ⟨M, m, p, xpre⟩ := x
   simp only at hx
   subst hx
   have hs := hc.shape
+  simp only at hsig
   cases hs <;>
     simp [NpmRange.classes, NpmRange.pre000, NpmRange.gtSuccPre, NpmRange.hyphenBelow, NpmRange.ltMidWild,
-      NpmRange.ltPartialPre, NpmRange.starCollapse, NpmRange.allComps]
+      NpmRange.ltPartialPre, NpmRange.starCollapse, NpmRange.allComps, NpmRange.signedIdent, hsig]
 
 /-- The hypotheses of the L1 theorems lie outside every Cargo finding class. -/
-theorem cargo_classes_nil (c : Comparator) (x : SemVerAst) (hx : x.pre = []) :
+theorem cargo_classes_nil (c : Comparator) (x : SemVerAst) (hx : x.pre = [])
+    (hsig : c.p.pre.any NpmRange.identSigned = false) :
     CargoReq.classes [.comps [c]] x = [] := by
   obtain ⟨M, m, p, xpre⟩ := x
   simp only at hx
   subst hx
-  simp [CargoReq.classes, NpmRange.pre000, NpmRange.gtSuccPre, CargoReq.prePartial]
+  simp [CargoReq.classes, NpmRange.pre000, NpmRange.gtSuccPre, CargoReq.prePartial, NpmRange.signedIdent, hsig]
 
 /-! ## Layers L2 and L3 (stated precisely; not proved here) -/
 
